@@ -48,13 +48,13 @@ impl Prop for Since {
         if c.oa != c.ob {
             cx.label("different_offsets");
         }
-        let route = ((c.a.ns ^ c.b.ns ^ c.a.day) % 16) as u8;
-        if route % 8 != 0 && route < 8 {
+        let route = ((c.a.ns ^ c.b.ns ^ c.a.day) % 20) as u8;
+        if route != 0 && route < 10 {
             cx.label("operand_built_through_an_operator_route");
         }
         let r = catch(|| {
-            let a = if route < 8 { mk_dt_route(ia, route).set_offset(Offset::Fixed(c.oa)) } else { mk_dt_off(ia, c.oa) };
-            let b = if route < 8 { mk_dt_route(ib, route / 2).set_offset(Offset::Fixed(c.ob)) } else { mk_dt_off(ib, c.ob) };
+            let a = if route < 10 { mk_dt_route(ia, route).set_offset(Offset::Fixed(c.oa)) } else { mk_dt_off(ia, c.oa) };
+            let b = if route < 10 { mk_dt_route(ib, route / 2).set_offset(Offset::Fixed(c.ob)) } else { mk_dt_off(ib, c.ob) };
             let ab: [i128; 7] = [
                 a.days_since(&b) as i128,
                 a.hours_since(&b) as i128,
